@@ -174,7 +174,10 @@ def replay(contract, label, model, note=""):
     if out is None and ("insert" in contract or "roundtrip" in contract):
         for ename, iname in PAIRS:
             for inplace in (bool(g("inplace", False)), not bool(g("inplace", False))):
-                out = check_insert(N, ptr, dt, t, tol, off, ename, iname, inplace, "scalar")
+                for mode in (("tensor", "scalar") if "tensor" in contract else ("scalar", "tensor")):
+                    out = check_insert(N, ptr, dt, t, tol, off, ename, iname, inplace, mode)
+                    if out:
+                        break
                 if out:
                     break
             if out:
@@ -188,7 +191,7 @@ def replay(contract, label, model, note=""):
         for p2 in range(N2):
             for tt in times_for(N2, dt, tol):
                 tried += 1
-                o = check_select(N2, p2, dt, tt, tol, off, "interp_linear") if "select" in contract else check_insert(N2, p2, dt, tt, tol, off, "extrap_neighbors", "interp_linear", False, "scalar")
+                o = check_select(N2, p2, dt, tt, tol, off, "interp_linear") if "select" in contract else (check_insert(N2, p2, dt, tt, tol, off, "extrap_neighbors", "interp_linear", False, "scalar") or check_insert(N2, p2, dt, tt, tol, off, "extrap_neighbors", "interp_linear", False, "tensor"))
                 if o:
                     return {"reproduced": True, "failure": o, "concrete": o["input"], "search": {"points_tried": tried}}
     return {"reproduced": False, "search": {"points_tried": tried}}
